@@ -407,3 +407,61 @@ Proof.
     exists (clean_dot (join_slash relParts)). simpl snd. split; [apply new_rel_path_ok; assumption|].
     rewrite W1, Hsegs, Hf. exact Hwalk.
 Qed.
+
+(* ---------- branch 4 cannot be reached ---------- *)
+Lemma branch4_condition_false cfrom cto :
+  has_prefix_path cto cfrom = false -> str_eqb cfrom dotstr && negb (is_abs cto) = false.
+Proof.
+  intro H. destruct (str_eqb cfrom dotstr) eqn:E; [|reflexivity].
+  apply str_eqb_spec in E. subst cfrom. unfold has_prefix_path in H.
+  destruct (text_prefix cto dotstr); [discriminate|]. simpl in H. exact H.
+Qed.
+
+Lemma relpath_tail_branch a b c : fst (relpath_tail a b c) <> 4%nat.
+Proof.
+  unfold relpath_tail, bind.
+  repeat match goal with
+         | |- context [match ?x with _ => _ end] => destruct x
+         end; simpl; discriminate.
+Qed.
+
+Theorem relpath_branch4_dead cwd topdir from to : fst (relpath_b cwd topdir from to) <> 4%nat.
+Proof.
+  rewrite relpath_b_unfold. cbv zeta.
+  destruct (str_eqb (clean from) (clean to)); [discriminate|].
+  destruct (has_prefix_path (clean to) (clean from)) eqn:Eh; [discriminate|].
+  destruct (str_eqb (clean to) dotstr && (length (parts (clean from)) =? 2)%nat
+            && negb (str_eqb (nth_str (parts (clean from)) 0) dotdot) && negb (is_abs (clean from))); [discriminate|].
+  rewrite (branch4_condition_false _ _ Eh). apply relpath_tail_branch.
+Qed.
+
+(* ---------- the theorem ---------- *)
+Theorem relpath_denotes cwd topdir from to :
+  rooted cwd = true -> nocolon cwd -> nocolon topdir -> nocolon from -> nocolon to ->
+  from <> [] -> inside cwd topdir from = true ->
+  exists r, relpath cwd topdir from to = Ok r /\ denote cwd (join_path from r) = denote cwd to.
+Proof.
+  intros Hrc Hcc Hct Hcf Hcto Hf Hin. unfold relpath. rewrite relpath_b_unfold. cbv zeta.
+  destruct (str_eqb (clean from) (clean to)) eqn:E1.
+  { (* cfrom == cto *)
+    apply str_eqb_spec in E1. exists dotstr. split; [reflexivity|].
+    apply denote_join; [exact Hf|]. change (segs dotstr) with [dotstr]. simpl. f_equal.
+    rewrite <- (clean_denotes cwd from), <- (clean_denotes cwd to), E1. reflexivity. }
+  apply str_eqb_false in E1.
+  destruct (has_prefix_path (clean to) (clean from)) eqn:E2.
+  { destruct (relpath_branch2 cwd from to Hcf Hcto Hf E1 E2) as (r & Hr & Hd). exists r. split; assumption. }
+  destruct (str_eqb (clean to) dotstr && (length (parts (clean from)) =? 2)%nat
+            && negb (str_eqb (nth_str (parts (clean from)) 0) dotdot) && negb (is_abs (clean from))) eqn:E3.
+  { repeat (apply andb_true_iff in E3 as [E3 ?]).
+    apply str_eqb_spec in E3. apply Nat.eqb_eq in H1. apply negb_true_iff in H0, H. apply str_eqb_false in H0.
+    exists [46; 46; 47; 46; 46]. split; [reflexivity|]. apply relpath_branch3; assumption. }
+  rewrite (branch4_condition_false _ _ E2).
+  (* the absolute paths *)
+  destruct (abs_path_form cwd (clean from) Hrc Hcc (nocolon_clean from Hcf)) as (AF & GF & CF).
+  destruct (abs_path_form cwd topdir Hrc Hcc Hct) as (AP & GP & CP).
+  destruct (abs_path_form cwd (clean to) Hrc Hcc (nocolon_clean to Hcto)) as (AT & GT & CT).
+  rewrite AF, AP, AT. rewrite !clean_denotes in *.
+  unfold inside in Hin.
+  destruct (relpath_tail_ok _ _ _ GF GP GT CF CP CT Hin) as (r & Hr & Hw).
+  exists r. split; [exact Hr|]. apply denote_join; assumption.
+Qed.
